@@ -67,6 +67,26 @@ theorem dynLoop_false_of_none (names : List String) (hy : Bool) : ∀ (toks : Li
     simp only [dynLoop, h1, h2]
     split <;> simp
 
+/-- with `override` set, a token of a dynamic rule anywhere makes the default dynamic — also for the hyphen
+    data types (a hyphen met first answers `override`) -/
+theorem dynLoop_true_of_override (names : List String) (hy : Bool) : ∀ (toks : List (String × Str)),
+    (∃ t ∈ toks, names.contains t.1 = true) → dynLoop names hy true toks = true
+  | [], h => by simp at h
+  | (n, v) :: rest, h => by
+    simp only [dynLoop]
+    split
+    · rfl
+    · by_cases hn : names.contains n = true
+      · have hn' : n ∈ names := by simpa using hn
+        simp [hn']
+      · have : ∃ t ∈ rest, names.contains t.1 = true := by
+          obtain ⟨t, ht, hc⟩ := h
+          simp only [List.mem_cons] at ht
+          rcases ht with ht | ht
+          · subst ht; exact absurd hc hn
+          · exact ⟨t, ht, hc⟩
+        simp [dynLoop_true_of_override names hy rest this]
+
 /-! ## a simple class: plain numbers (non-empty strings of ASCII digits) are one NUMBER token -/
 
 def allDigits (s : Str) : Prop := ∀ c ∈ s, isDigit c = true
